@@ -27,13 +27,15 @@ for _p in ("C01", "C11", "C12", "C13"):
                        "z3/cvc5 (coverage.obligations / discharged). They model observations as extended reals; the one consequence of that "
                        "assumption that can be checked natively is covered by a BOUNDED stand-in (coverage.bounded_standins, never counted as "
                        "proved): integer-typed samples (Python ints, integer arrays) must give the same p-values and histories as the float "
-                       "samples the obligations are about.")
+                       "samples the obligations are about. A second bounded stand-in (nonneg_definitions) is an engine-independent net: every "
+                       "test, built through the real constructor, is run natively on every small sample over {0, u/2, u} and compared with the "
+                       "published products and the well-formedness clauses.")
 # bounded stand-ins (native exhaustive small-scope contract checking, /verif/bounded/cases.py): property -> [(case, clause filter)]
 # a filter is a tuple of substrings: only failures whose clause contains one of them count for that property (None = all)
 BOUNDED_CASES = {
-    "C01": [("nonneg_dtype", None)],
-    "C11": [("nonneg_dtype", None)],
-    "C12": [("nonneg_dtype", None)],
+    "C01": [("nonneg_dtype", None), ("nonneg_definitions", None)],
+    "C11": [("nonneg_dtype", None), ("nonneg_definitions", ("one history entry", "overall p", "the test returns"))],
+    "C12": [("nonneg_dtype", None), ("nonneg_definitions", ("history = min",))],
     "C13": [("nonneg_dtype", None)],
     "C02": [("assorters", None)],
     "C03": [("overstatement", ("mean(B)", "does not raise"))],
